@@ -8,6 +8,11 @@ def M(name, file, old, new, props, **kw):
     MUTANTS.append(dict(name=name, file=file, old=old, new=new, props=props, **kw))
 
 
+def M2(name, edits, props):
+    """A mutant made of several edits (file, old, new) that each look harmless alone."""
+    MUTANTS.append(dict(name=name, edits=[dict(file=f, old=o, new=n) for f, o, n in edits], props=props))
+
+
 S = "transform/sorts.py"
 # ---- C05 ----------------------------------------------------------------------------------
 M("sort-chunk-boundary-le", S, "if self.buffersize is None or len(rows) < self.buffersize:",
@@ -165,3 +170,21 @@ M("valuecounter-skips-none", "util/counting.py", "    for v in values(table, fie
 M("rowgroupmap-groups-on-presorted-only", "transform/maps.py", "def iterrowgroupmap(source, key, mapper, header):\n    yield tuple(header)\n    for key, rows in rowgroupby(source, key):", "def iterrowgroupmap(source, key, mapper, header):\n    yield tuple(header)\n    for key, rows in list(rowgroupby(source, key))[::-1][::-1]:", ["C09"])
 M("gcdv-counts-rows", RD, "    s2 = distinct(s1)\n    s3 = aggregate(s2, key, len)", "    s2 = s1\n    s3 = aggregate(s2, key, len)", ["C09"])
 M("simpleaggregate-unsorted", RD, "        if presorted or key is None:\n            self.table = table\n        else:\n            self.table = sort(table, key, buffersize=buffersize, \n                              tempdir=tempdir, cache=cache)    \n        self.key = key\n        self.aggregation = aggregation", "        self.table = table\n        self.key = key\n        self.aggregation = aggregation", ["C09"])
+
+# ---- C11 ----------------------------------------------------------------------------------
+M("join-forgets-buffersize-right", J, "            self.right = sort(self.right, rkey, buffersize=buffersize,\n                              tempdir=tempdir, cache=cache)\n        self.leftouter", "            self.right = sort(self.right, rkey)\n        self.leftouter", ["C11"])
+# (serving the memory cache regardless of self.cache, or filling it regardless of self.cache, are each
+#  equivalent alone; together they make cache=False replay a stale pass)
+M2("sortview-cache-flag-ignored-both-sites", [
+    (S, "        if self.cache and self._memcache is not None:", "        if self._memcache is not None:"),
+    (S, "            if self.cache:\n                debug('caching mem')", "            if True:\n                debug('caching mem')"),
+    (S, "        debug('iterate without cache')\n        self.clearcache()", "        debug('iterate without cache')"),
+], ["C11"])
+# (equivalent by results: sorting an already sorted input again changes nothing; listed for the record)
+M("distinct-presorted-ignored-EQUIV", DD, "        if presorted:\n            self.table = table\n        else:\n            self.table = sort(table, key=key, buffersize=buffersize,", "        if False:\n            self.table = table\n        else:\n            self.table = sort(table, key=key, buffersize=buffersize,", ["C11"])
+M("aggregate-drops-tempdir-cache", RD, "            self.table = sort(table, key, buffersize=buffersize, \n                              tempdir=tempdir, cache=cache)    ", "            self.table = sort(table, key, buffersize=buffersize)", ["C11"])
+M("complement-cache-not-forwarded", SO, "            self.a = sort(a, buffersize=buffersize, tempdir=tempdir,\n                          cache=cache)\n            self.b = sort(b, buffersize=buffersize, tempdir=tempdir,\n                          cache=cache)\n        self.strict = strict", "            self.a = sort(a, buffersize=buffersize, tempdir=tempdir,\n                          cache=cache)\n            self.b = sort(b, buffersize=buffersize, tempdir=tempdir)\n        self.strict = strict", ["C11"])
+M("chunk-merge-drops-tie-order", S, "        keyed_iterables = [(_Keyed(key(obj), obj) for obj in iterable)\n                           for iterable in iterables]", "        keyed_iterables = [(_Keyed(key(obj), obj) for obj in iterable)\n                           for iterable in reversed(iterables)]", ["C11", "C05"])
+M("pivot-presorted-sorts-anyway-by-f1", "transform/reshape.py", "            self.source = sort(source, key=(f1, f2), buffersize=buffersize,", "            self.source = sort(source, key=f1, buffersize=buffersize,", ["C14"])
+# (equivalent by results, which is the property: ignoring a strategy argument cannot change the output)
+M("config-buffersize-read-late-EQUIV", S, "        if buffersize is None:\n            self.buffersize = config.sort_buffersize\n        else:\n            self.buffersize = buffersize", "        self._bs = buffersize\n        self.buffersize = 100000 if buffersize is None else buffersize", ["C11"])
